@@ -9,12 +9,14 @@ package proxy
 
 import (
 	"github.com/datastax/cql-proxy/codecs"
+	"github.com/datastax/go-cassandra-native-protocol/frame"
 	"github.com/datastax/go-cassandra-native-protocol/message"
 	"github.com/datastax/go-cassandra-native-protocol/primitive"
 )
 
 var _ message.Message // the contracts below name types of packages message and codecs
 var _ *codecs.PartialQuery
+var _ *frame.Frame
 
 // ---------------------------------------------------------------------------------------------
 // C05: the documented default retry policy (README / doc comments of RetryPolicy), as a table.
@@ -67,6 +69,10 @@ func verifSpecErrorResponse(isReadFailure, isWriteFailure bool) RetryDecision {
 //@ func proxy.defaultRetryPolicy.OnUnavailable [C05]
 //@   ensures  result == verifSpecUnavailable(retryCount)
 //@   modifies nothing
+
+// verifHasTracing: the TRACING header flag (0x02). The protocol library computes the length of a
+// re-encoded frame assuming a 16-byte tracing id whenever this flag is set, which is only right for responses.
+func verifHasTracing(f primitive.HeaderFlag) bool { return f&primitive.HeaderFlagTracing != 0 }
 
 // ---------------------------------------------------------------------------------------------
 // C20: configuration values are honoured as documented, bad configurations refused
@@ -250,20 +256,74 @@ func verifSpecCL(lowered string) primitive.ConsistencyLevel {
 //@   ensures result != nil && fresh(result) && result.$remaining >= 0
 //@   modifies nothing
 
-//@ func proxy.client.maybeOverrideUnsupportedWriteConsistency [C12]
-//@   requires c != nil && raw != nil && body != nil
-//@   modifies *
+// ---------------------------------------------------------------------------------------------
+// C12: write-consistency override
+// ---------------------------------------------------------------------------------------------
+
+//@ loop proxy.client.isUnsupportedWriteConsistency #1
+//@   invariant forall(k, 0, rangeindex + 1, c.proxy.config.UnsupportedWriteConsistencies[k].ConsistencyLevel != consistency)
+
+// isUnsupportedWriteConsistency = membership in the configured list (an empty list matches nothing).
+//@ func proxy.client.isUnsupportedWriteConsistency [C12]
+//@   requires c != nil && c.proxy != nil
+//@   ensures result == exists(k, 0, len(c.proxy.config.UnsupportedWriteConsistencies), c.proxy.config.UnsupportedWriteConsistencies[k].ConsistencyLevel == consistency)
+//@   modifies nothing
+
+// maybeOverrideUnsupportedWriteConsistency: SELECTs, messages that are not QUERY/EXECUTE/BATCH and
+// requests whose consistency is not in the list are forwarded as the client's raw frame, untouched.
+// Otherwise the partially decoded message gets the override consistency - nothing else in it is
+// written - and is re-encoded into a raw frame that shares the client's header and whose declared
+// body length is the length of the bytes produced (well-framed whatever the header flags).
+//   $ovConverted / $ovConvErr: the re-encoding step and whether it failed
+//@ ghostvar $convertedBody *frame.Body
+
+// reencode: the modified body becomes a fresh raw frame sharing the client's header, whose declared
+// length is the length of the encoded bytes; only if the codec refuses falls it back to a frame.
+//@ func proxy.client.reencode [C12]
+//@   local $ovConvErr bool = false
+//@   requires c != nil && c.proxy != nil && c.codec != nil && raw != nil && raw.Header != nil && body != nil
+//@   after frame.RawCodec.ConvertToRawFrame#1 set $ovConvErr = (result1 != nil)
+//@   ensures reencoded: !$ovConvErr ==> typeis(result, *frame.RawFrame) && fresh(as(result, *frame.RawFrame)) && as(result, *frame.RawFrame).Header == raw.Header && raw.Header.BodyLength == len(as(result, *frame.RawFrame).Body) && $convertedBody == body
+//@   ensures well-framed: typeis(result, *frame.Frame) ==> $ovConvErr
+//@   ensures raw.Header == old(raw.Header) && raw.Body == old(raw.Body) && body.Message == old(body.Message)
+//@   modifies raw.Header.BodyLength, $convertedBody
+
+//   $ovAsked / $ovIn: whether the list was consulted and what it said
+//@ func proxy.client.maybeOverrideUnsupportedWriteConsistency [C12, C03]
+//@   local $ovAsked bool = false
+//@   local $ovIn bool = false
+//@   local $ovReencoded bool = false
+//@   let q = as(body.Message, *codecs.PartialQuery)
+//@   let e = as(body.Message, *codecs.PartialExecute)
+//@   let b = as(body.Message, *codecs.PartialBatch)
+//@   let override = c.proxy.config.UnsupportedWriteConsistencyOverride.ConsistencyLevel
+//@   requires c != nil && c.proxy != nil && c.codec != nil && raw != nil && raw.Header != nil && body != nil
+//@   after proxy.client.isUnsupportedWriteConsistency#1 set $ovAsked = true; $ovIn = result
+//@   after proxy.client.reencode#1 set $ovReencoded = true
+//@   replay-post verifReplayOverrideFraming(raw.Header.Flags)
+//@   ensures select-untouched: isSelect ==> typeis(frm, *frame.RawFrame) && as(frm, *frame.RawFrame) == raw && !$ovAsked
+//@   ensures other-messages-untouched: !typeis(body.Message, *codecs.PartialQuery) && !typeis(body.Message, *codecs.PartialExecute) && !typeis(body.Message, *codecs.PartialBatch) ==> typeis(frm, *frame.RawFrame) && as(frm, *frame.RawFrame) == raw && !$ovAsked
+//@   ensures asked-about-the-request: $ovAsked ==> !isSelect
+//@   ensures not-listed-untouched: $ovAsked && !$ovIn ==> typeis(frm, *frame.RawFrame) && as(frm, *frame.RawFrame) == raw
+//@   ensures listed-reencoded: ($ovAsked && $ovIn) == $ovReencoded
+//@   ensures reencoded-frame: $ovReencoded ==> (typeis(frm, *frame.RawFrame) && fresh(as(frm, *frame.RawFrame)) && as(frm, *frame.RawFrame).Header == raw.Header && raw.Header.BodyLength == len(as(frm, *frame.RawFrame).Body) && $convertedBody == body) || $ovConvErr
+//@   ensures query-consistency: typeis(body.Message, *codecs.PartialQuery) && q != nil ==> q.Consistency == ite($ovAsked && $ovIn, override, old(q.Consistency)) && q.Query == old(q.Query) && q.Parameters == old(q.Parameters)
+//@   ensures execute-consistency: typeis(body.Message, *codecs.PartialExecute) && e != nil ==> e.Consistency == ite($ovAsked && $ovIn, override, old(e.Consistency)) && e.QueryId == old(e.QueryId) && e.ResultMetadataId == old(e.ResultMetadataId) && e.Parameters == old(e.Parameters)
+//@   ensures batch-consistency: typeis(body.Message, *codecs.PartialBatch) && b != nil ==> b.Consistency == ite($ovAsked && $ovIn, override, old(b.Consistency)) && b.Type == old(b.Type) && b.Queries == old(b.Queries) && b.Parameters == old(b.Parameters)
+//@   ensures well-framed: typeis(frm, *frame.Frame) ==> $ovConvErr
+//@   ensures raw.Header == old(raw.Header) && raw.Body == old(raw.Body) && body.Message == old(body.Message)
+//@   modifies q.Consistency, e.Consistency, b.Consistency, raw.Header.BodyLength, $convertedBody
 
 // client.execute: either one error frame to the client (no usable session) or one request started,
 // carrying the client's stream id, version and connection.
 //@ func proxy.client.execute [C01, C02, C09]
-//@   requires c != nil && raw != nil && raw.Header != nil && body != nil && c.proxy != nil && c.conn != nil && inv(c.proxy)
+//@   requires c != nil && raw != nil && raw.Header != nil && body != nil && c.proxy != nil && c.conn != nil && c.codec != nil && inv(c.proxy)
 //@   event c.$executed
 //@   ensures one-outcome: (c.$sent - old(c.$sent)) + ($reqStarted - old($reqStarted)) == 1
 //@   ensures c.$sent >= old(c.$sent) && $reqStarted >= old($reqStarted)
 //@   ensures request-identity: $reqStarted == old($reqStarted) + 1 ==> fresh($lastReq) && $lastReq.client == c && $lastReq.stream == old(raw.Header.StreamId) && $lastReq.version == old(raw.Header.Version)
 //@   ensures error-identity: c.$sent == old(c.$sent) + 1 ==> $lastClient == c && $lastStream == old(raw.Header.StreamId) && $lastVersion == old(raw.Header.Version) && typeis($lastMsg, *message.ServerError)
-//@   modifies *, c.$sent, $reqStarted, $lastReq, $lastMsg, $lastStream, $lastVersion, $lastClient, $sends
+//@   modifies *, c.$sent, $reqStarted, $lastReq, $lastMsg, $lastStream, $lastVersion, $lastClient, $sends, $convertedBody
 
 // ---------------------------------------------------------------------------------------------
 // C09 (routing), C13 (handshake), C01 (one answer per decoded frame): the client reader
@@ -306,22 +366,22 @@ func verifSpecCL(lowered string) primitive.ConsistencyLevel {
 // handleQuery: a QUERY is answered locally iff the parser says it is handled (USE / system SELECT,
 // see parser.IsQueryHandled); otherwise it is forwarded, exactly once.
 //@ func proxy.client.handleQuery [C01, C09]
-//@   requires c != nil && raw != nil && raw.Header != nil && body != nil && c.proxy != nil && c.conn != nil && inv(c.proxy) && c.proxy.cluster != nil && !$selReached && !$useTried
+//@   requires c != nil && raw != nil && raw.Header != nil && body != nil && c.proxy != nil && c.conn != nil && c.codec != nil && inv(c.proxy) && c.proxy.cluster != nil && !$selReached && !$useTried
 //@   after parser.IsQueryHandled#1 set $qhHandled = result0
 //@   ensures local: $qhHandled ==> c.$executed == old(c.$executed) && c.$sent == old(c.$sent) + 1 && $reqStarted == old($reqStarted)
 //@   ensures forwarded: !$qhHandled ==> c.$executed == old(c.$executed) + 1
 //@   ensures one-answer: (c.$sent - old(c.$sent)) + ($reqStarted - old($reqStarted)) == 1 && c.$sent >= old(c.$sent) && $reqStarted >= old($reqStarted)
 //@   ensures on-stream: c.$sent == old(c.$sent) + 1 ==> $lastClient == c && $lastStream == old(raw.Header.StreamId)
-//@   modifies *, c.$sent, c.$executed, $reqStarted, $sends, $lastReq, $lastMsg, $lastStream, $lastVersion, $lastClient, $qhHandled, $selReached, $selDot, $selErr, $selQual, $selTable, $useTried, $useOK, $useKs, $useVersion, $useCompression
+//@   modifies *, c.$sent, c.$executed, $reqStarted, $sends, $convertedBody, $lastReq, $lastMsg, $lastStream, $lastVersion, $lastClient, $qhHandled, $selReached, $selDot, $selErr, $selQual, $selTable, $useTried, $useOK, $useKs, $useVersion, $useCompression
 
 //@ func proxy.client.handlePrepare [C01, C09]
-//@   requires c != nil && raw != nil && raw.Header != nil && body != nil && c.proxy != nil && c.conn != nil && inv(c.proxy) && c.preparedSystemQuery != nil && !$selReached
+//@   requires c != nil && raw != nil && raw.Header != nil && body != nil && c.proxy != nil && c.conn != nil && c.codec != nil && inv(c.proxy) && c.preparedSystemQuery != nil && !$selReached
 //@   after parser.IsQueryHandled#1 set $qhHandled = result0
 //@   ensures local: $qhHandled ==> c.$executed == old(c.$executed) && c.$sent == old(c.$sent) + 1 && $reqStarted == old($reqStarted)
 //@   ensures forwarded: !$qhHandled ==> c.$executed == old(c.$executed) + 1
 //@   ensures one-answer: (c.$sent - old(c.$sent)) + ($reqStarted - old($reqStarted)) == 1 && c.$sent >= old(c.$sent) && $reqStarted >= old($reqStarted)
 //@   ensures on-stream: c.$sent == old(c.$sent) + 1 ==> $lastClient == c && $lastStream == old(raw.Header.StreamId)
-//@   modifies *, c.$sent, c.$executed, $reqStarted, $sends, $lastReq, $lastMsg, $lastStream, $lastVersion, $lastClient, $qhHandled, $selReached, $selDot, $selErr, $selQual, $selTable
+//@   modifies *, c.$sent, c.$executed, $reqStarted, $sends, $convertedBody, $lastReq, $lastMsg, $lastStream, $lastVersion, $lastClient, $qhHandled, $selReached, $selDot, $selErr, $selQual, $selTable
 
 //@ ghostvar $exId [16]byte
 //@ ghostvar $exLocal bool
@@ -329,12 +389,12 @@ func verifSpecCL(lowered string) primitive.ConsistencyLevel {
 // handleExecute: an EXECUTE of an id that this client prepared as a handled statement is answered
 // locally; any other id is forwarded.
 //@ func proxy.client.handleExecute [C01, C09]
-//@   requires c != nil && raw != nil && raw.Header != nil && body != nil && c.proxy != nil && c.conn != nil && inv(c.proxy) && c.proxy.cluster != nil && !$useTried
+//@   requires c != nil && raw != nil && raw.Header != nil && body != nil && c.proxy != nil && c.conn != nil && c.codec != nil && inv(c.proxy) && c.proxy.cluster != nil && !$useTried
 //@   after proxy.preparedIdKey#1 set $exId = result; $exLocal = mapHas(c.preparedSystemQuery, result)
 //@   ensures local: $exLocal ==> c.$executed == old(c.$executed) && c.$sent == old(c.$sent) + 1 && $reqStarted == old($reqStarted)
 //@   ensures forwarded: !$exLocal ==> c.$executed == old(c.$executed) + 1
 //@   ensures one-answer: (c.$sent - old(c.$sent)) + ($reqStarted - old($reqStarted)) == 1 && c.$sent >= old(c.$sent) && $reqStarted >= old($reqStarted)
-//@   modifies *, c.$sent, c.$executed, $reqStarted, $sends, $lastReq, $lastMsg, $lastStream, $lastVersion, $lastClient, $exId, $exLocal, $useTried, $useOK, $useKs, $useVersion, $useCompression
+//@   modifies *, c.$sent, c.$executed, $reqStarted, $sends, $convertedBody, $lastReq, $lastMsg, $lastStream, $lastVersion, $lastClient, $exId, $exLocal, $useTried, $useOK, $useKs, $useVersion, $useCompression
 
 //@ func proxy.preparedIdKey
 //@   trusted
@@ -393,7 +453,7 @@ func verifSpecCL(lowered string) primitive.ConsistencyLevel {
 //@   ensures local-opcodes: $rxBodyTried && $rxBodyOK && !typeis($rxMsg, *message.Prepare) && !typeis($rxMsg, *codecs.PartialExecute) && !typeis($rxMsg, *codecs.PartialQuery) && !typeis($rxMsg, *codecs.PartialBatch) ==> c.$sent == old(c.$sent) + 1 && c.$executed == old(c.$executed) && $reqStarted == old($reqStarted) && $lastStream == $rxStream && $lastClient == c
 //@   ensures handshake-replies: $rxBodyTried && $rxBodyOK && typeis($rxMsg, *message.Options) ==> typeis($lastMsg, *message.Supported)
 //@   ensures register-reply: $rxBodyTried && $rxBodyOK && typeis($rxMsg, *message.Register) ==> typeis($lastMsg, *message.Ready)
-//@   modifies *, c.$registered, c.$sent, c.$executed, $reqStarted, $sends, $lastReq, $lastMsg, $lastStream, $lastVersion, $lastClient, $qhHandled, $selReached, $selDot, $selErr, $selQual, $selTable, $exId, $exLocal, $useTried, $useOK, $useKs, $useVersion, $useCompression, $rxDecoded, $rxVersion, $rxStream, $rxBodyTried, $rxBodyOK, $rxMsg
+//@   modifies *, c.$registered, c.$sent, c.$executed, $reqStarted, $sends, $convertedBody, $lastReq, $lastMsg, $lastStream, $lastVersion, $lastClient, $qhHandled, $selReached, $selDot, $selErr, $selQual, $selTable, $exId, $exLocal, $useTried, $useOK, $useKs, $useVersion, $useCompression, $rxDecoded, $rxVersion, $rxStream, $rxBodyTried, $rxBodyOK, $rxMsg
 
 // ---------------------------------------------------------------------------------------------
 // C01 / C04 / C05: the request object as a monitor
